@@ -190,13 +190,15 @@ def _conform_filename(
         )
         rewrite_at_query.visit(parsed_ast)
 
-        print(
-            "modified" if rewrite_at_query.replaced else "unchanged", filename, sep="\t"
-        )
         if rewrite_at_query.replaced:
+            with open(filename, "rt") as f:
+                previous_src = f.read()
             emit.file(parsed_ast, filename, mode="wt", skip_black=False)
+            with open(filename, "rt") as f:
+                # Only report a modification when the bytes actually differ
+                replaced = f.read() != previous_src
 
-        replaced = rewrite_at_query.replaced
+        print("modified" if replaced else "unchanged", filename, sep="\t")
 
     return filename, replaced
 
